@@ -163,6 +163,14 @@ class Impl:
             d = Dimension(letter=l, name=name, items=items(its), dtype={"i": int, "s": str, "n": None}[ty])
             self.objs[self.h(t[1])] = d
             return "ok"
+        if op == "dimfrom":
+            # a dimension derived from another one that has been in use: same letter / name / dtype, other items
+            src = self.get(t[2], Dimension)
+            _, l, name, ty, its = t[3].split(":")
+            src.index(src.items[0])
+            FlodymArray(dims=DimensionSet(dim_list=[src]), values=np.zeros(len(src.items)))[{src.letter: src.items[-1]}]
+            self.objs[self.h(t[1])] = src.model_copy(update={"items": items(its)})
+            return "ok"
         if op == "dset":
             return self.put_dset(t[1], DimensionSet(dim_list=[self.get(x, Dimension) for x in t[2:]]))
         if op == "sarr":
